@@ -383,7 +383,173 @@ func (g *gen) coroutineStmt() []Stmt {
 	g.feat("coroutine")
 	co := g.fresh("co")
 	c := newEctx()
-	switch g.n(6, "co-form") {
+	switch g.n(12, "co-form") {
+	case 6:
+		// yields from inside metamethods, an iterator function and a __close handler
+		g.feat("yield-in-metamethod")
+		yl := func() Expr { return Glob("coroutine", "yield") }
+		mm := func(tag string, ret Expr) Expr {
+			return &Func{Params: []string{"x", "y"}, Body: []Stmt{
+				&Local{Names: []string{"got"}, Exprs: []Expr{C(yl(), S(tag))}},
+				Emit(S("mm-resumed"), S(tag), N("got")),
+				&Return{Exprs: []Expr{ret}},
+			}}
+		}
+		obj, it := g.fresh("o"), g.fresh("it")
+		return []Stmt{
+			&Local{Names: []string{obj}, Exprs: []Expr{C(N("setmetatable"), &Table{}, &Table{Items: []TItem{
+				{NameKey: "__index", Val: mm("index", S("from-index"))},
+				{NameKey: "__add", Val: mm("add", I(40))},
+				{NameKey: "__lt", Val: mm("lt", &True{})},
+				{NameKey: "__concat", Val: mm("concat", S("cc"))},
+				{NameKey: "__len", Val: mm("len", I(3))},
+				{NameKey: "__call", Val: mm("call", S("called"))},
+				{NameKey: "__eq", Val: mm("eq", &True{})},
+				{NameKey: "__close", Val: mm("close", &Nil{})},
+			}})}},
+			&LocalFunc{Name: it, F: &Func{Params: []string{"s", "i"}, Body: []Stmt{
+				&If{Conds: []Expr{B("<", N("i"), I(2))}, Blocks: [][]Stmt{{&Return{Exprs: []Expr{B("+", N("i"), I(1)), C(yl(), S("iter"))}}}}},
+			}}},
+			&Local{Names: []string{co}, Exprs: []Expr{C(Glob("coroutine", "wrap"), &Func{Body: []Stmt{
+				Emit(S("index"), Idx(N(obj), S("k"))),
+				Emit(S("add"), B("+", N(obj), I(1))),
+				Emit(S("lt"), B("<", N(obj), N(obj))),
+				Emit(S("concat"), B("..", N(obj), S("z"))),
+				Emit(S("len"), U("#", N(obj))),
+				Emit(S("call"), C(N(obj), I(1))),
+				Emit(S("eq"), B("==", N(obj), C(N("setmetatable"), &Table{}, C(N("getmetatable"), N(obj))))),
+				&GenFor{Names: []string{"i", "v"}, Exprs: []Expr{N(it), &Nil{}, I(0)}, Body: []Stmt{Emit(S("iter-body"), N("i"), N("v"))}},
+				&Do{Body: []Stmt{&Local{Names: []string{"c"}, Attribs: []string{"close"}, Exprs: []Expr{N(obj)}}, Emit(S("in-block"))}},
+				&Return{Exprs: []Expr{S("mm-done")}},
+			}})}},
+			&NumFor{Var: g.fresh("r"), Start: I(1), Limit: I(int64(8 + g.n(5, "mm-resumes"))), Body: []Stmt{
+				Emit(S("mm-step"), C(N("pcall"), N(co), S("in"))),
+			}},
+		}
+	case 7:
+		// library functions as coroutine bodies; values (with nils) through resume/yield/return
+		g.feat("coroutine-go-body")
+		a, b2, c3 := g.fresh("co"), g.fresh("co"), g.fresh("co")
+		return []Stmt{
+			&Local{Names: []string{co}, Exprs: []Expr{C(Glob("coroutine", "create"), Glob("coroutine", "yield"))}},
+			Emit(S("yield-body-1"), C(Glob("coroutine", "resume"), N(co), I(1), &Nil{}, I(3), &Nil{})),
+			Emit(S("yield-body-2"), C(Glob("coroutine", "resume"), N(co), &Nil{}, S("x"), &Nil{})),
+			Emit(S("yield-body-3"), C(Glob("coroutine", "resume"), N(co)), C(Glob("coroutine", "status"), N(co))),
+			&Local{Names: []string{a}, Exprs: []Expr{C(Glob("coroutine", "wrap"), N("pcall"))}},
+			Emit(S("pcall-body"), C(N(a), Glob("coroutine", "yield"), S("through-pcall"), &Nil{})),
+			Emit(S("pcall-body-2"), C(N(a), S("back"), &Nil{}, &Nil{})),
+			&Local{Names: []string{b2}, Exprs: []Expr{C(Glob("coroutine", "wrap"), &Func{IsVar: true, Body: []Stmt{
+				&Return{Exprs: []Expr{C(N("select"), S("#"), &Vararg{}), C(Glob("coroutine", "yield"), &Vararg{})}},
+			}})}},
+			Emit(S("vararg-1"), C(N(b2), &Nil{}, &Nil{})),
+			Emit(S("vararg-2"), C(N("select"), S("#"), C(N(b2), &Nil{}, I(2), &Nil{}))),
+			&Local{Names: []string{c3}, Exprs: []Expr{C(Glob("coroutine", "create"), &Func{IsVar: true, Body: []Stmt{
+				&Return{Exprs: []Expr{C(Glob("coroutine", "yield"), C(Glob("coroutine", "yield"), &Vararg{}))}},
+			}})}},
+			Emit(S("tail-1"), C(Glob("coroutine", "resume"), N(c3), I(int64(g.n(9, "tail-x"))), &Nil{})),
+			Emit(S("tail-2"), C(Glob("coroutine", "resume"), N(c3), S("p"), S("q"))),
+			Emit(S("tail-3"), C(Glob("coroutine", "resume"), N(c3))),
+			Emit(S("tail-4"), C(Glob("coroutine", "resume"), N(c3)), C(Glob("coroutine", "status"), N(c3))),
+		}
+	case 8:
+		// closing and resuming coroutines in every state, from inside and outside
+		g.feat("coroutine-state-ops")
+		outer := g.fresh("outer")
+		return []Stmt{
+			&Local{Names: []string{co, outer}},
+			&Assign{Targets: []Expr{N(co)}, Exprs: []Expr{C(Glob("coroutine", "create"), &Func{Body: []Stmt{
+				Emit(S("close-self"), C(N("pcall"), Glob("coroutine", "close"), N(co))),
+				Emit(S("close-resumer"), C(N("pcall"), Glob("coroutine", "close"), N(outer))),
+				Emit(S("wrap-self"), C(N("pcall"), C(Glob("coroutine", "wrap"), &Func{Body: []Stmt{&Return{Exprs: []Expr{C(Glob("coroutine", "resume"), N(co))}}}}))),
+				&CallStmt{Call: C(Glob("coroutine", "yield"), S("y"))},
+				&CallStmt{Call: C(N("error"), g.errorValueExpr(c))},
+			}})}},
+			&Assign{Targets: []Expr{N(outer)}, Exprs: []Expr{C(Glob("coroutine", "create"), &Func{Body: []Stmt{
+				Emit(S("o-resume"), C(Glob("coroutine", "resume"), N(co))),
+				Emit(S("o-status"), C(Glob("coroutine", "status"), N(co)), C(Glob("coroutine", "status"), N(outer))),
+				Emit(S("o-yield"), C(Glob("coroutine", "yield"), S("oy"))),
+				Emit(S("o-resume-2"), C(N("select"), I(1), C(Glob("coroutine", "resume"), N(co)))),
+				Emit(S("o-close-dead"), C(N("select"), I(1), C(Glob("coroutine", "close"), N(co)))),
+			}})}},
+			Emit(S("m1"), C(Glob("coroutine", "resume"), N(outer))),
+			Emit(S("m-close-suspended-outer?"), C(Glob("coroutine", "status"), N(outer))),
+			Emit(S("m2"), C(Glob("coroutine", "resume"), N(outer), S("back"))),
+			Emit(S("m3"), C(Glob("coroutine", "status"), N(outer)), C(Glob("coroutine", "status"), N(co))),
+			Emit(S("m4"), C(N("pcall"), Glob("coroutine", "close"), C(Glob("coroutine", "running")))),
+			Emit(S("m5"), C(N("pcall"), Glob("coroutine", "resume"), C(Glob("coroutine", "running")))),
+			Emit(S("m6"), C(N("pcall"), Glob("coroutine", "wrap"), I(1))),
+			Emit(S("m7"), C(N("pcall"), Glob("coroutine", "status"), S("x"))),
+		}
+	case 9:
+		// a coroutine used as a for-in iterator, with an early break and a to-be-closed 4th value
+		g.feat("coroutine-iterator")
+		n := int64(2 + g.n(4, "iter-n"))
+		stop := int64(1 + g.n(int(n)+1, "iter-stop"))
+		gen := g.fresh("gen")
+		return []Stmt{
+			&LocalFunc{Name: gen, F: &Func{Params: []string{"n"}, Body: []Stmt{
+				&Return{Exprs: []Expr{C(Glob("coroutine", "wrap"), &Func{Body: []Stmt{
+					&NumFor{Var: "i", Start: I(1), Limit: N("n"), Body: []Stmt{&CallStmt{Call: C(Glob("coroutine", "yield"), N("i"), B("*", N("i"), N("i")))}}},
+				}})}},
+			}}},
+			&GenFor{Names: []string{"i", "sq"}, Exprs: []Expr{C(N(gen), I(n))}, Body: []Stmt{
+				Emit(S("it"), N("i"), N("sq")),
+				&If{Conds: []Expr{B("==", N("i"), I(stop))}, Blocks: [][]Stmt{{&Break{}}}},
+			}},
+			&GenFor{Names: []string{"i"}, Exprs: []Expr{C(N(gen), I(n)), &Nil{}, &Nil{}, g.closerExpr(g.fresh("c"), 0)}, Body: []Stmt{
+				&GenFor{Names: []string{"j"}, Exprs: []Expr{C(N(gen), N("i"))}, Body: []Stmt{Emit(S("nested"), N("i"), N("j"))}},
+			}},
+			Emit(S("after-iter")),
+		}
+	case 10:
+		// error values of every type cross resume and wrap; errors inside nested coroutines
+		g.feat("coroutine-error-values")
+		w := g.fresh("w")
+		return []Stmt{
+			&Local{Names: []string{co}, Exprs: []Expr{C(Glob("coroutine", "create"), &Func{Params: []string{"e"}, Body: []Stmt{&CallStmt{Call: C(N("error"), N("e"), I(0))}}})}},
+			Emit(S("err-nil"), C(Glob("coroutine", "resume"), C(Glob("coroutine", "create"), &Func{Body: []Stmt{&CallStmt{Call: C(N("error"))}}}))),
+			Emit(S("err-val"), C(Glob("coroutine", "resume"), N(co), g.errorValueExpr(c))),
+			Emit(S("err-dead"), C(Glob("coroutine", "resume"), N(co))),
+			&Local{Names: []string{w}, Exprs: []Expr{C(Glob("coroutine", "wrap"), &Func{Body: []Stmt{
+				&Local{Names: []string{"inner"}, Exprs: []Expr{C(Glob("coroutine", "wrap"), &Func{Body: []Stmt{
+					&CallStmt{Call: C(Glob("coroutine", "yield"), I(1))},
+					&CallStmt{Call: C(N("error"), &Table{Items: []TItem{{NameKey: "tag", Val: S("inner-err")}}})},
+				}})}},
+				Emit(S("inner-1"), C(N("inner"))),
+				&CallStmt{Call: C(Glob("coroutine", "yield"), S("mid"))},
+				Emit(S("inner-2"), C(N("pcall"), N("inner"))),
+				Emit(S("inner-3"), C(N("select"), I(1), C(N("pcall"), N("inner")))),
+				&CallStmt{Call: C(N("inner"))},
+			}})}},
+			Emit(S("w1"), C(N(w))),
+			Emit(S("w2"), C(N("select"), I(1), C(N("pcall"), N(w)))),
+			Emit(S("w3"), C(N("select"), I(1), C(N("pcall"), N(w)))),
+		}
+	case 11:
+		// many coroutines alive at once, resumed round-robin; some abandoned while suspended
+		g.feat("coroutine-many")
+		n := int64(2 + g.n(5, "many-n"))
+		rounds := int64(1 + g.n(4, "many-rounds"))
+		cos := g.fresh("cos")
+		return []Stmt{
+			&Local{Names: []string{cos}, Exprs: []Expr{&Table{}}},
+			&NumFor{Var: "i", Start: I(1), Limit: I(n), Body: []Stmt{
+				&Assign{Targets: []Expr{Idx(N(cos), N("i"))}, Exprs: []Expr{C(Glob("coroutine", "create"), &Func{Params: []string{"x"}, Body: []Stmt{
+					&While{Cond: B("<", N("x"), B("*", N("i"), I(3))), Body: []Stmt{
+						&Assign{Targets: []Expr{N("x")}, Exprs: []Expr{B("+", N("x"), C(Glob("coroutine", "yield"), N("i"), N("x")))}},
+					}},
+					&Return{Exprs: []Expr{S("done"), N("i")}},
+				}})}},
+			}},
+			&NumFor{Var: "r", Start: I(1), Limit: I(rounds), Body: []Stmt{
+				&NumFor{Var: "i", Start: I(1), Limit: I(n), Body: []Stmt{
+					Emit(S("rr"), N("r"), N("i"), C(Glob("coroutine", "resume"), Idx(N(cos), N("i")), N("r"))),
+				}},
+			}},
+			&NumFor{Var: "i", Start: I(1), Limit: I(n), Body: []Stmt{
+				Emit(S("final"), N("i"), C(Glob("coroutine", "status"), Idx(N(cos), N("i")))),
+			}},
+		}
 	case 0:
 		// generator: yields a sequence, values pass both ways
 		n := int64(g.n(4, "co-n"))
@@ -487,7 +653,7 @@ func (g *gen) coroutineStmt() []Stmt {
 		if bad > 0 {
 			b1 = bad
 		}
-		return []Stmt{
+		out := []Stmt{
 			&Local{Names: []string{co}, Exprs: []Expr{C(Glob("coroutine", "create"), &Func{Body: []Stmt{
 				&Local{Names: []string{id1}, Attribs: []string{"close"}, Exprs: []Expr{g.closerExpr(id1, 0)}},
 				&Local{Names: []string{id2}, Attribs: []string{"close"}, Exprs: []Expr{g.closerExpr(id2, b1)}},
@@ -498,8 +664,12 @@ func (g *gen) coroutineStmt() []Stmt {
 			Emit(S("start"), C(Glob("coroutine", "resume"), N(co))),
 			Emit(S("close"), C(Glob("coroutine", "close"), N(co))),
 			Emit(S("status"), C(Glob("coroutine", "status"), N(co))),
-			Emit(S("close-again"), C(Glob("coroutine", "close"), N(co))),
-			Emit(S("resume-dead"), C(N("select"), I(1), C(Glob("coroutine", "resume"), N(co)))),
 		}
+		if bad == 0 {
+			// (what a second close of a coroutine whose close failed returns is
+			// not specified: the model would discard the whole program)
+			out = append(out, Emit(S("close-again"), C(Glob("coroutine", "close"), N(co))))
+		}
+		return append(out, Emit(S("resume-dead"), C(N("select"), I(1), C(Glob("coroutine", "resume"), N(co)))))
 	}
 }
